@@ -9,6 +9,8 @@ import Lattigo.Model.EncoderT
     bgv unringt t= g= n= scale= kind=u|i len= p=<vec>                       ⇒ DecodeRingT values
     bgv encode  t= g= n= N= qs= scale= batched=0|1 kind=u|i vals=           ⇒ canonical plaintext rows | err
     bgv decode  t= g= n= N= qs= scale= batched=0|1 kind=u|i len= rows=<mat> ⇒ Decode values
+    bgv embed   t= g= n= N= qs=<moduli of the receiver part> up=0|1 scale= kind=u|i vals=
+                                                                            ⇒ canonical rows of EmbedScale | err
 -/
 namespace Driver.C07
 open Driver Lattigo Lattigo.EncoderT
@@ -60,6 +62,12 @@ def handleBgv (toks : List String) : Option String :=
     let batched ← nat? rest "batched"
     let v ← vals? rest
     pure (match encode P (batched == 1) scale v with | some a => showMat a.c | none => "err")
+  | "embed" :: rest => do
+    let P ← params? rest
+    let scale ← nat? rest "scale"
+    let up ← nat? rest "up"
+    let v ← vals? rest
+    pure (match embed P P.qs (up == 1) scale v with | some a => showMat a.c | none => "err")
   | "decode" :: rest => do
     let P ← params? rest
     let scale ← nat? rest "scale"
